@@ -85,11 +85,16 @@ class Stream:
             self.path = os.path.join(self.tmpdir, "f.avro")
             self.fo = open(self.path, "w+b")
 
-    def value(self):
+    def value(self, include_unflushed=False):
+        # what another process would see: only what has gone through the stream's own flush()
+        # (every read-back check comes after a Writer.flush(), which has to push its bytes all the way)
         if self.kind == "realfile":
-            self.fo.flush()
+            if include_unflushed:
+                self.fo.flush()
             with open(self.path, "rb") as f:
                 return f.read()
+        if self.kind == "simfile" and not include_unflushed:
+            return self.fo.getvalue()[:self.fo.flushed]
         return self.fo.getvalue()
 
     def reopen(self):
@@ -240,7 +245,7 @@ def _history(F, ch, ctx, st):
     else:
         w = F.write.Writer(st.fo, wschema, **kw)
         ops.append({"op": "create"})
-        model.header = st.value()
+        model.header = st.value(include_unflushed=True)   # no flush has been asked for yet
     if model.header and not foreign_start:
         # whatever is on the stream once the writer exists must be exactly a complete header
         # (an implementation that writes the header lazily leaves the stream empty here; the
